@@ -18,6 +18,9 @@ Flows(s) ==
     [type |-> "DepositForBurnWithCaller", from |-> "a1", amt |-> 1, dst |-> "d1", mrcpt |-> B("j", "x1"), tok |-> MINT, caller |-> B("j", "x1")],
     [type |-> "ReceiveMessage", from |-> "a1", wire |-> PlainIn(FreshIn(s), Zero32), att |-> HonestAtt(s)],
     [type |-> "ReceiveMessage", from |-> "a1", wire |-> BurnIn(FreshIn(s), Zero32, 1, Pad("a3")), att |-> HonestAtt(s)],
+    \* a burn-shaped message whose recipient has the module's bytes behind junk padding: NOT addressed to the module
+    [type |-> "ReceiveMessage", from |-> "a1", att |-> HonestAtt(s),
+     wire |-> WireMsg(0, "d1", NOBLE, FreshIn(s), M1, B("j", MODULE_ACC), Zero32, BurnBody(0, T1, Pad("a3"), 1, Pad("x2")))],
     [type |-> "ReplaceMessage", from |-> "a1", orig |-> PlainOut("a1", 0), att |-> HonestAtt(s), body |-> Raw(2, 12), caller |-> Zero32],
     [type |-> "ReplaceDepositForBurn", from |-> "a1", orig |-> DepOutMsg("a1", 0, 1), att |-> HonestAtt(s), mrcpt |-> B("j", "x2"), caller |-> Zero32] }
 
